@@ -1,6 +1,6 @@
 (* C09 -- Code is verbatim (partial: see MANIFEST level text).  Property theorems only. *)
 From Rimu Require Import Base Regex RegexParse Str Types Tables Guards State Inline Block
-  Frame FrameBlock FrameInst OptionsLemmas MiscLemmas MoreLemmas Plain MatchExact Emphasis.
+  Frame FrameBlock FrameInst OptionsLemmas MiscLemmas MoreLemmas Plain MatchExact Emphasis PlainDoc Lines CodeBlock.
 
 (* the code and indented definitions of the generated table expand specials only
    (macros, spans, container, skip all off) and wrap in <pre><code> *)
@@ -51,4 +51,28 @@ Print Assumptions C09_code_quote_verbatim.
 
 Example C09_ex_code_quote :
   spans_render 6 (ienv_of (document_init S0)) $"Use `a *b* < c` here." = iret $"Use <code>a *b* &lt; c</code> here.".
+Proof. vm_compute. reflexivity. Qed.
+
+(* A FENCED CODE BLOCK IS VERBATIM, WHATEVER IT HOLDS: for every list of content lines -- any characters at all except a line
+   terminator inside a line, none of the lines being the closing fence itself -- the block loop renders  ``  content...  ``
+   to <pre><code> escape(content joined by newlines) </code></pre> : quotes, tags, macro invocations, Block Attributes,
+   list markers, definitions in the content are not interpreted.  (Session afterwards: the code definition has stored the
+   closing pattern built from the fence, nothing else changed.) *)
+Theorem C09_fenced_code_verbatim : forall fuel doc n content s,
+  quiet_default s -> Forall nlfree content -> ~ In fence content ->
+  doc_loop (S fuel) doc (S (S n)) (fence :: content ++ [fence]) s =
+  Ok ($"<pre><code>" ++ escape (join [10] content) ++ $"</code></pre>", code_after s).
+Proof. exact code_block_document. Qed.
+Print Assumptions C09_fenced_code_verbatim.
+
+(* the closing pattern built from a fence matches exactly the line that is the fence *)
+Theorem C09_closing_fence_exact : forall d l, nlfree l -> l <> d -> re_search (lit_close d) l = None.
+Proof. exact lit_close_search_none. Qed.
+Print Assumptions C09_closing_fence_exact.
+
+Example C09_ex_fenced :
+  match doc_render 9 ($"``" ++ [10] ++ $"*not em* <b> {macro} .attr" ++ [10] ++ $"- not a list" ++ [10] ++ $"``") (document_init S0) with
+  | Ok (html, _) => html = $"<pre><code>*not em* &lt;b&gt; {macro} .attr" ++ [10] ++ $"- not a list</code></pre>"
+  | _ => False
+  end.
 Proof. vm_compute. reflexivity. Qed.
